@@ -72,6 +72,9 @@ func equiv(a, b reflect.Value, path string) (bool, string) {
 	}
 }
 
+// exactPeriodRange: the span the duration text of the period type represents exactly.
+const exactPeriodRange = 3276 * 24 * time.Hour
+
 func equivPeriod(a, b model.TimePeriodType, path string) (bool, string) {
 	if a.StartTime == nil && a.EndTime != nil && a.EndTime.IsRelativeTime() {
 		// re-expressed against the current time: compare the remaining duration within 1 s (+ slack)
@@ -79,6 +82,10 @@ func equivPeriod(a, b model.TimePeriodType, path string) (bool, string) {
 		db, err2 := b.GetDuration()
 		if err1 != nil || err2 != nil || b.StartTime != nil {
 			return false, path + ": relative period lost"
+		}
+		if da > exactPeriodRange || da < -exactPeriodRange {
+			world.Label("timeperiod/beyond-exact-duration-range")
+			return true, ""
 		}
 		if d := da - db; d > 1200*time.Millisecond || d < -1200*time.Millisecond {
 			return false, fmt.Sprintf("%s: remaining %v vs %v", path, da, db)
@@ -100,6 +107,12 @@ func equivPeriod(a, b model.TimePeriodType, path string) (bool, string) {
 		}
 		if err1 != nil || err2 != nil {
 			return false, fmt.Sprintf("%s: unreadable end time (%v, %v)", path, err1, err2)
+		}
+		if rem := time.Until(ta); rem > exactPeriodRange || rem < -exactPeriodRange {
+			// the remaining duration goes over the wire as an xs:duration text; beyond 3276 days the
+			// period type cannot hold it exactly (documented limit, NA in C19 as well): not judged
+			world.Label("timeperiod/beyond-exact-duration-range")
+			return true, ""
 		}
 		if d := ta.Sub(tb); d > 2200*time.Millisecond || d < -2200*time.Millisecond {
 			return false, fmt.Sprintf("%s: end time moved by %v (%s vs %s)", path, d, *a.EndTime, *b.EndTime)
